@@ -251,6 +251,20 @@ def huge_case(seed, variant):
             "ops": [["ins", "~"] + pts, rm, ["all", "0"]]}
 
 
+def giant_case(seed, variant):
+    """one history over 17 000 - 21 000 points under flush_on_insert=False (no sync per row): a removal that keeps more than
+    16 384 rows, then an update that changes one point — rewrites of more rows than any batch size a rewrite might use"""
+    r = random.Random(seed)
+    n = r.randint(17000, 21000)
+    T0 = G.T0
+    pts = [["pt", str(T0 + i), hx("m1" if i % 2 else "m2"), ["tags", [hx("k"), hx(str(i % 3))]], ["fields"]] for i in range(n)]
+    rm = ["remove", ["time", ["cmp", "lt", f"t:{T0 + 3}"]], "~"]
+    up = ["update", "0", ["time", ["cmp", "eq", f"t:{T0 + 100 + variant}"]], "~", ["time", "~"], ["meas", "~"],
+          ["tags", ["s", [hx("z"), hx("1")]]], ["fields", "~"], ["unsettags"], ["unsetfields"]]
+    return {"cfg": ["cfg", "csv", "auto" if variant % 2 == 0 else "noauto"], "huge": True, "giant": True, "flush": False,
+            "ops": [["ins", "~"] + pts, rm, ["count", ["noop", "time"], "~"], up, ["count", ["noop", "time"], "~"]]}
+
+
 def lean_io_lines(case):
     """protocol lines for the model: cfg, then for each op: (io f op), op, (state)"""
     f = "1" if case.get("flush", True) else "0"
@@ -698,6 +712,8 @@ class Family:
             n *= 2
         base = C.seed() * 7907 + int(prop[1:]) * 101
         cases = [gen_case(base * 100003 + i, prop, i) for i in range(n)]
+        if prop == "C04":
+            cases = [giant_case(base + 7 + v, v) for v in range(1 if tier == "quick" else 2)] + cases
         if prop in ("C12", "C04") or (prop == "C13" and tier == "thorough"):
             cases = [huge_case(base + v, v) for v in range(2 if prop == "C12" or (tier == "thorough" and prop != "C13") else 1)] + cases
         if prop == "C15":
